@@ -442,6 +442,8 @@ class ExplorerRunner(SequentialRunner):
         else:
             o = Order(agent_id=agent.agent_id, market_id=market.market_id, is_buy=is_buy, kind=MARKET_ORDER,
                       volume=(_np.int64(op["vol"]) if op.get("typ") == "np" else int(op["vol"])), ttl=ttl)
+        if op.get("typ") == "ip" and o.price is not None and abs(o.price) < 1e15:
+            o.price = int(round(o.price))  # a price written as a whole number (a Python int)
         o = cloned(o, op.get("typ"))
         agent.mine.append(o)
         sim._trigger_event_before_order(order=o)
